@@ -514,7 +514,7 @@ Section C02.
     end.
   Proof.
     unfold child_decision. destruct obs as [old|]; [|cbv zeta; eexists _, _; reflexivity].
-    destruct (apply_update (obj_map old) (obj_map d)) as [newm| |]; try exact I.
+    destruct (apply_update (obj_map old) (obj_map d)) as [newm| |] eqn:Ea; try exact I.
     destruct (jeqb (JObj newm) old); [exact I|].
     destruct (is_deleting old); [exact I|]. cbv zeta.
     destruct (String.eqb _ method_on_delete); [exact I|].
@@ -592,7 +592,7 @@ Section C02.
       eapply safeP_bind with (Q := TT).
       + apply safeP_api; [|auto]. rewrite Hn1, Hn2, Hr, Hnsd. apply P_child_update; [exact Hg|].
         destruct Hg as (Hkc' & Hoc & _).
-        apply apply_update_uid; auto. apply (cache_wf_obj kc' old Hkc' Hoc).
+        apply apply_update_uid with (d := d); [|exact Ha]. apply (cache_wf_obj kc' old Hkc' Hoc).
       + intros h'' r _. destruct r as [o'|e]; [|destruct e]; constructor; exact I.
     - destruct Hcd as (d1 & refs & ->).
       eapply safeP_bind with (Q := TT).
@@ -602,4 +602,264 @@ Section C02.
       + intros h'' r _. destruct r as [o'|e]; [|destruct e]; constructor; exact I.
   Qed.
 
+  Lemma group_entries E m av kd :
+    umap_all E m ->
+    forall n o, In (n, o) (match ufind_group av kd m with Some os => os | None => [] end) -> E av kd n o.
+  Proof.
+    intros Hm n o Hin. destruct (ufind_group av kd m) as [os|] eqn:Eg; [|destruct Hin].
+    apply ufind_group_in in Eg. eapply Hm; eauto.
+  Qed.
+
+  Lemma manage_children_ok p obs des h : pinv p -> umap_ok obs -> umap_all des_entry des ->
+    SP TT h (manage_children c p obs des).
+  Proof.
+    intros Hp Hobs Hdes. unfold manage_children.
+    eapply safeP_bind with (Q := TT).
+    - apply safeP_foldM with (I := fun (_ : hist) (_ : bool) => True); [exact I|].
+      intros h' failed [[av kd] os] Hin _. cbv beta iota.
+      destruct (lookup_kind c av kd) as [kc|] eqn:El; [|constructor; exact I].
+      eapply safeP_bind with (Q := TT); [|intros; constructor; exact I].
+      apply delete_children_ok with (av := av) (kd := kd); [exact El|].
+      intros n o Ho. eapply Hobs; eauto.
+    - intros h' f1 _.
+      apply safeP_foldM with (I := fun (_ : hist) (_ : bool) => True); [exact I|].
+      intros h'' failed [[av kd] ds] Hin _. cbv beta iota.
+      destruct (lookup_kind c av kd) as [kc|] eqn:El; [|constructor; exact I].
+      eapply safeP_bind with (Q := TT); [|intros; constructor; exact I].
+      apply update_children_ok with (av := av) (kd := kd); [exact Hp|exact El| |].
+      + apply group_entries. exact Hobs.
+      + intros n d Hd. eapply Hdes; eauto.
+  Qed.
+
+  Lemma update_parent_status_ok p st h : pinv p -> SP TT h (update_parent_status c p st).
+  Proof.
+    intros Hp. unfold update_parent_status. cbv zeta.
+    eapply safeP_post; [|apply parent_au; exact Hp]. auto.
+  Qed.
+
+  Lemma finish_sync_ok p obs r h : pinv p -> umap_ok obs -> names_ok (hr_children r) = true ->
+    SP TT h (finish_sync c p obs r).
+  Proof.
+    intros Hp Hobs Hn. unfold finish_sync.
+    destruct (desired_map (hr_children r) []) as [desired0|] eqn:Edm; [|constructor; exact I].
+    eapply safeP_bind with (Q := TT).
+    { destruct (positive_number (hr_resync r)); [|constructor; exact I].
+      unfold note. constructor; [apply P_hook|]. intros; constructor; exact I. }
+    intros h1 _ _.
+    eapply safeP_bind with (Q := fun _ r => pinv_post r).
+    { destruct (hr_finalized r); [|constructor; intros o [= <-]; exact Hp].
+      eapply safeP_post; [|apply parent_au; exact Hp].
+      cbv beta. intros h' r' H o Hr. apply (H o Hr). apply remove_finalizer_uid. }
+    intros h2 pr Hpr. destruct pr as [p2|e]; [|constructor; exact I].
+    assert (Hp2 : pinv p2) by (apply Hpr; reflexivity).
+    destruct (make_selector c p2) as [sel|]; [|constructor; exact I].
+    destruct (enforce_labels c p2 sel (uobjects desired0)) as [ds|] eqn:Eel; [|constructor; exact I].
+    cbv zeta.
+    eapply safeP_bind with (Q := TT).
+    { destruct (negb (is_deleting p2) || should_finalize c p2); [|constructor; exact I].
+      apply manage_children_ok; auto.
+      apply umap_all_fold; [apply umap_all_nil|].
+      assert (Hd0 : umap_all des_entry desired0).
+      { eapply desired_map_ok; eauto. apply umap_all_nil. }
+      assert (Hall : Forall (fun d => no_slash (get_name d) = true) ds).
+      { eapply enforce_labels_names; eauto. apply Forall_forall. intros d Hd.
+        apply uobjects_in in Hd as (av & kd & os & n & H1 & H2). eapply Hd0; eauto. }
+      eapply Forall_impl; [|exact Hall]. cbv beta. intros d Hd. split; auto. }
+    intros h3 failed _.
+    eapply safeP_bind with (Q := TT); [apply update_parent_status_ok; exact Hp2|].
+    intros h4 sr _. destruct sr as [o|e]; [|destruct e]; constructor; exact I.
+  Qed.
+
+  Lemma sync_parent_object_ok h : SP TT h (sync_parent_object c k parent).
+  Proof.
+    unfold sync_parent_object.
+    destruct (ignores_parent c parent); [constructor; exact I|].
+    eapply safeP_bind with (Q := fun _ r => pinv_post r); [apply sync_finalizer_ok, pinv_refl|].
+    intros h1 fr Hfr. destruct fr as [p1|e]; [|constructor; exact I].
+    assert (Hp1 : pinv p1) by (apply Hfr; reflexivity).
+    destruct (ignores_parent c p1); [constructor; exact I|].
+    eapply safeP_bind; [apply claim_children_ok; exact Hp1|].
+    cbv beta. intros h2 oc Hoc. destruct oc as [observed|]; [|constructor; exact I].
+    assert (Hobs : umap_ok observed) by (apply Hoc; reflexivity).
+    unfold related_phase. cbn [bind].
+    unfold hook_phase.
+    eapply safeP_bind; [apply call_hook_ok|].
+    cbv beta. intros h3 hr Hhr. destruct hr as [| |n|r]; try (constructor; exact I).
+    apply finish_sync_ok; auto.
+  Qed.
+
 End C02.
+
+(* ORIGINAL STATEMENT (false, see C02_calls_counterexample below):
+   Theorem C02_calls : forall c k parent,
+     k_parent k = Some parent -> cfg_wf c = true -> cache_wf c k = true ->
+     get_uid parent <> "" -> ssa c = false ->
+     safe sane (fun _ cl => C02_call_ok c k parent cl = true) [] (sync c k).
+   A hook may return a child whose name contains '/': "ns/name" is then also the
+   map key of a namespaced observed child, the two are matched, and the delete /
+   update goes to (namespace of the desired object, "ns/name"), which is not a
+   cached object.  The variant below assumes that object names (cached, and
+   returned by the hook) contain no '/'. *)
+Theorem C02_calls_partial : forall c k parent,
+  k_parent k = Some parent -> cfg_wf c = true -> cache_wf c k = true ->
+  get_uid parent <> "" -> ssa c = false -> cache_names_ok c k = true ->
+  safe sane_names (fun _ cl => C02_call_ok c k parent cl = true) [] (sync c k).
+Proof.
+  intros c k parent Hk Hcfg Hcache Huid Hssa Hnames. unfold sync. rewrite Hk.
+  eapply safeP_safe. eapply safeP_conseq; [intros cl a H; exact H| |intros h r H; exact H|
+    apply (sync_parent_object_ok c k parent Hcfg Hcache Huid Hssa Hnames)].
+  cbv beta. intros h cl [H _]. exact H.
+Qed.
+
+(* deletes carry a non-empty uid precondition and Background propagation; creates carry
+   a controller reference to the parent (or have a metadata that is not an object, which
+   no API server accepts) — without the "targets the parent" escape of the envelope *)
+Theorem C02_strict : forall c k parent,
+  k_parent k = Some parent -> cfg_wf c = true -> cache_wf c k = true ->
+  get_uid parent <> "" -> ssa c = false -> cache_names_ok c k = true ->
+  safe sane_names (fun _ cl => call_strict (get_uid parent) cl = true) [] (sync c k).
+Proof.
+  intros c k parent Hk Hcfg Hcache Huid Hssa Hnames. unfold sync. rewrite Hk.
+  eapply safeP_safe. eapply safeP_conseq; [intros cl a H; exact H| |intros h r H; exact H|
+    apply (sync_parent_object_ok c k parent Hcfg Hcache Huid Hssa Hnames)].
+  cbv beta. intros h cl [_ H]. exact H.
+Qed.
+
+(* reading the envelope: a delete that does not target the parent itself names a cached
+   object, carries its uid as precondition, and asks for Background propagation *)
+Lemma C02_delete_guarded c k parent q :
+  C02_call_ok c k parent (CApi q) = true -> q_verb q = VDelete -> targets_parent c parent q = false ->
+  exists o, find_cached c k q = Some o /\ q_uid_pre q = get_uid o /\ q_prop q = "Background" /\
+            (controlled_by o (get_uid parent) || is_orphan o = true).
+Proof.
+  unfold C02_call_ok. intros H Hv Ht. rewrite Ht, Hv in H. cbn [orb] in H.
+  destruct (find_cached c k q) as [o|]; [|discriminate].
+  apply Bool.andb_true_iff in H as [H H3]. apply Bool.andb_true_iff in H as [H1 H2].
+  apply String.eqb_eq in H1, H2. eauto.
+Qed.
+
+(* ... and for the calls of a sync the precondition is never empty *)
+Lemma C02_delete_guarded_sync parent q :
+  call_strict (get_uid parent) (CApi q) = true -> q_verb q = VDelete ->
+  q_uid_pre q <> "" /\ q_prop q = "Background".
+Proof.
+  unfold call_strict. intros H Hv. rewrite Hv in H.
+  apply Bool.andb_true_iff in H as [H1 H2].
+  apply Bool.negb_true_iff, String.eqb_neq in H1. apply String.eqb_eq in H2. auto.
+Qed.
+
+Lemma C02_create_owned c k parent q :
+  C02_call_ok c k parent (CApi q) = true -> q_verb q = VCreate -> targets_parent c parent q = false ->
+  has_controller_ref_of (q_body q) (get_uid parent) = true \/ metadata_is_obj (q_body q) = false.
+Proof.
+  unfold C02_call_ok. intros H Hv Ht. rewrite Ht, Hv in H. cbn [orb] in H.
+  apply Bool.orb_true_iff in H as [H|H]; [now left|right]. now apply Bool.negb_true_iff.
+Qed.
+
+Lemma C02_create_owned_sync parent q :
+  call_strict (get_uid parent) (CApi q) = true -> q_verb q = VCreate ->
+  has_controller_ref_of (q_body q) (get_uid parent) = true \/ metadata_is_obj (q_body q) = false.
+Proof.
+  unfold call_strict. intros H Hv. rewrite Hv in H.
+  apply Bool.orb_true_iff in H as [H|H]; [now left|right]. now apply Bool.negb_true_iff.
+Qed.
+
+Print Assumptions C02_calls_partial.
+Print Assumptions C02_strict.
+Print Assumptions C02_delete_guarded.
+Print Assumptions C02_create_owned.
+
+(* ---------- the original statement is false: concrete counterexamples ---------- *)
+Module Counterexample.
+  Definition mk_kid (namespaced : bool) := mkChild "v1" "things" "Thing" namespaced "Recreate".
+  Definition mk_cfg (namespaced : bool) : ccfg :=
+    mkCfg "cc" "v1" "Parent" "parents" false true true sel_everything [mk_kid namespaced] true false
+          [mk_kid namespaced] false false.
+  Definition parent : json :=
+    JObj [("apiVersion", JStr "v1"); ("kind", JStr "Parent");
+          ("metadata", JObj [("name", JStr "p"); ("uid", JStr "u1")])].
+  Definition pref : json :=
+    JObj [("apiVersion", JStr "v1"); ("blockOwnerDeletion", JBool true); ("controller", JBool true);
+          ("kind", JStr "Parent"); ("name", JStr "p"); ("uid", JStr "u1")].
+  Definition child (name : string) (ns : list (string * json)) : json :=
+    JObj [("apiVersion", JStr "v1"); ("kind", JStr "Thing");
+          ("metadata", JObj ([("name", JStr name)] ++ ns ++
+                             [("uid", JStr "u2");
+                              ("labels", JObj [("controller-uid", JStr "u1")]);
+                              ("ownerReferences", JArr [pref])]))].
+  Definition desired (name : string) (ns : list (string * json)) : json :=
+    JObj [("apiVersion", JStr "v1"); ("kind", JStr "Thing");
+          ("metadata", JObj ([("name", JStr name)] ++ ns)); ("spec", JStr "x")].
+  Definition env_of (d : json) : env :=
+    fun _ cl => match cl with
+                | CHook _ _ => AHook (JObj [("children", JArr [d])])
+                | CApi _ => AFail EOther
+                end.
+  Lemma env_sane d h cl : sane cl (env_of d h cl).
+  Proof. destruct cl; exact I. Qed.
+
+  (* 1: the hook names a child "a/b" (no namespace); the cache holds b in namespace a *)
+  Definition c1 := mk_cfg true.
+  Definition k1 := mkCache (Some parent) [("things.v1", [child "b" [("namespace", JStr "a")]])].
+  Definition e1 := env_of (desired "a/b" []).
+
+  (* 2: names returned by the hook are fine, a cached cluster-scoped child is named "x/y" *)
+  Definition c2 := mk_cfg false.
+  Definition k2 := mkCache (Some parent) [("things.v1", [child "x/y" []])].
+  Definition e2 := env_of (desired "y" [("namespace", JStr "x")]).
+End Counterexample.
+
+Lemma not_safe_by_run c k parent (e : env) :
+  (forall h cl, sane cl (e h cl)) ->
+  forallb (fun hc => C02_call_ok c k parent (snd hc)) (calls_with_history (fst (run (sync c k) e []))) = false ->
+  ~ safe sane (fun _ cl => C02_call_ok c k parent cl = true) [] (sync c k).
+Proof.
+  intros He Hf Hs. apply safe_run with (e := e) in Hs; [|exact He].
+  rewrite Forall_forall in Hs.
+  assert (forallb (fun hc => C02_call_ok c k parent (snd hc))
+            (calls_with_history (fst (run (sync c k) e []))) = true) as Ht.
+  { apply forallb_forall. intros x Hx. apply (Hs x Hx). }
+  congruence.
+Qed.
+
+Example C02_calls_counterexample :
+  exists c k parent,
+    k_parent k = Some parent /\ cfg_wf c = true /\ cache_wf c k = true /\
+    get_uid parent <> "" /\ ssa c = false /\ cache_names_ok c k = true /\
+    ~ safe sane (fun _ cl => C02_call_ok c k parent cl = true) [] (sync c k).
+Proof.
+  exists Counterexample.c1, Counterexample.k1, Counterexample.parent.
+  split; [reflexivity|]. split; [vm_compute; reflexivity|]. split; [vm_compute; reflexivity|].
+  split; [vm_compute; discriminate|]. split; [reflexivity|]. split; [vm_compute; reflexivity|].
+  apply not_safe_by_run with (e := Counterexample.e1); [apply Counterexample.env_sane|].
+  vm_compute. reflexivity.
+Qed.
+
+(* the offending request of that run *)
+Example C02_calls_counterexample_call :
+  existsb (fun hc => match snd hc with
+                     | CApi q => verb_eqb (q_verb q) VDelete && String.eqb (q_name q) "a/b" &&
+                                 String.eqb (q_ns q) "" && String.eqb (q_uid_pre q) "u2"
+                     | _ => false end)
+          (calls_with_history (fst (run (sync Counterexample.c1 Counterexample.k1) Counterexample.e1 []))) = true.
+Proof. vm_compute. reflexivity. Qed.
+
+(* the assumption on cached names is needed as well *)
+Example C02_calls_counterexample_cache :
+  exists c k parent,
+    k_parent k = Some parent /\ cfg_wf c = true /\ cache_wf c k = true /\
+    get_uid parent <> "" /\ ssa c = false /\
+    (exists e, (forall h cl, sane_names cl (e h cl)) /\
+       forallb (fun hc => C02_call_ok c k parent (snd hc))
+               (calls_with_history (fst (run (sync c k) e []))) = false).
+Proof.
+  exists Counterexample.c2, Counterexample.k2, Counterexample.parent.
+  split; [reflexivity|]. split; [vm_compute; reflexivity|]. split; [vm_compute; reflexivity|].
+  split; [vm_compute; discriminate|]. split; [reflexivity|].
+  exists Counterexample.e2. split.
+  - intros h cl. split; [apply Counterexample.env_sane|]. destruct cl; vm_compute; reflexivity.
+  - vm_compute. reflexivity.
+Qed.
+
+Print Assumptions C02_calls_counterexample.
+Print Assumptions C02_calls_counterexample_cache.
